@@ -328,6 +328,9 @@ def structure_rules(ctx, chk, G, gname, pairing, rule="C08.2"):
     ce_case = case
     from ..genabs import CaseEval
     ce = CaseEval(G.sx, case, {G.L: case.L, G.W: case.W}, 0, 0, G.names)
+    if ("win" not in pairing.tail or "lose" not in pairing.tail) and getattr(pairing, "undecided", None):
+        chk.undecided(rule, where, "game %s: the pairing of the blocks was not completed (%d undecided), so the winning / losing states were not reached" % (gname, len(pairing.undecided)))
+        return
     if "win" not in pairing.tail or "lose" not in pairing.tail:
         chk.violation(rule, where, "game %s: winning / losing state not both reached (%s)" % (gname, pairing.tail), expected="win and lose", found=str(pairing.tail),
                       construct="%s tails" % gname)
